@@ -14,7 +14,7 @@ claimed = {
          "Bounds: 2 goroutines, 1 call each, <=5 context switches, 1 pre-state entry (live/expired/absent), clock frozen during the concurrent phase. The map under the cache is replaced by its linearizable specification (seam).",
          "solver-based context-bounded symbolic scheduling (go/ssa -> SMT, z3), linearizability oracle, native schedule replay"),
  'C03': ("Context-bounded symbolic scheduling of the real Map code (Load, doCompute, lockBucket/unlockBucket, top-hash helpers): two threads (1 op each, and 1 || 2 ops) from an arbitrary valid 1-bucket state, 2 rounds with symbolic boundaries (all interleavings with <=3 context switches at atomic-operation granularity), uninterpreted hash (top-hash collisions included). Oracle: linearizability vs reference map + quiescent Load/Size.",
-         "Bounds: 2 goroutines, tables of 1 root bucket with <=1 pre-state entry, <=3 context switches, executions that request a grow/shrink are outside the quick instances (Clear pairs and more pairs at thorough). Larger tables and resizes overlapping the calls could not be encoded within reach (formula size); stated in DESIGN.md.",
+         "Bounds: 2 goroutines, tables of 1 root bucket with <=1 pre-state entry, <=3 context switches, in the pair/triple instances executions that request a grow/shrink are outside (Clear pairs and more pairs at thorough); resize||op instances: one whole-table grow 1->2 buckets (thorough: shrink 2->1) started directly with m.resize(table, hint), overlapping one call (quick: Clear, Store). A grow requested from inside a Store overlapping another call, and larger tables, could not be encoded within reach (formula size); stated in DESIGN.md.",
          "solver-based context-bounded symbolic scheduling (go/ssa -> SMT, z3), linearizability oracle, native schedule replay"),
  'C05': ("Context-bounded symbolic scheduling of two racers on one key at map level (real Map/MapOf code) and cache level (real cache code over the map's atomic specification) with ghost call counters in the user functions: results, loaded flags and number of user-function calls must be those of a sequential order. Sequential 'exactly once, also across an internal retry after grow' is decided by the C11 step harnesses (grow inside the step).",
          "Bounds: 2 racers, <=3 (map level) / <=5 (cache level) context switches, key absent/live/expired.",
@@ -29,21 +29,21 @@ claimed = {
          "Bounds: constructor + optional SetDefaultExpiration + optional pre-Set + 1 method + reads; clock < 2^61 then any later instant < 2^62; the 32-root-bucket table the constructor asks for is built with 1 root bucket; MinCapacity default.",
          "solver-based bounded symbolic execution over all int64 durations"),
  'C11': ("Bounded symbolic execution, inductive step: every Map / MapOf[int,int] / MapOf[string,any] operation from an arbitrary valid table state (every slot occupancy, hash values, seed, counters; representation invariant of DESIGN.md §2.9) - including a grow 1->2 buckets with rehash under a fresh symbolic seed inside the step - compared with a reference map; the representation invariant (incl. exact counters, locks free) is re-established.",
-         "Bounds: shapes (root buckets, chain) (1,1) with grow; (2,1),(1,2) without grow at quick; MapOf buckets with 3 symbolic slots or concretely full. Size-hint arithmetic of the constructors is not covered.",
+         "Bounds: shapes (root buckets, chain) (1,1) with grow; (2,1),(1,2) without grow at quick; MapOf buckets with 3 symbolic slots or concretely full; direct whole-table grow/shrink steps (m.resize) from chains of up to 3 buckets with holes and empty middle buckets. Size-hint arithmetic of the constructors is not covered.",
          "solver-based bounded symbolic execution: inductive step under a representation invariant"),
- 'C12': ("Differential bounded symbolic execution: Cache and CacheOf[string,any] executed in one formula on shared symbolic inputs (pre-state, clock, TTL, key, value, callback present or not); every result, callback ledger, Count and stored (value, expiry) compared, for all 15 methods.",
+ 'C12': ("Differential bounded symbolic execution: Cache and CacheOf[string,any] executed in one formula on shared symbolic inputs (pre-state, clock, TTL, key, value, callback present or not); every result, callback ledger, Count, stored (value, expiry) and the Items()/Range views of the post-state compared, for all 15 methods.",
          "Bounds: 2 pre-state entries, 1 call. Map vs MapOf twins are compared through their common reference map in C11.",
          "solver-based differential symbolic execution of the twins"),
- 'C13': ("Bounded symbolic execution: evicted callbacks and Range visitors that re-enter the same cache (Get/Set/Delete/DeleteExpired) from Delete/GetAndDelete/DeleteExpired/Range - every call returns with all locks free (a lock still held at the call-out shows up as the mutex/spin lock being taken twice). Every VxPar run of C02/C03/C05 additionally carries a deadlock obligation (unfinished threads all parked at disabled blocking operations in the final memory).",
+ 'C13': ("Bounded symbolic execution: evicted callbacks and Range visitors that re-enter the same cache (Get/Set/Delete/DeleteExpired) from Delete/GetAndDelete/DeleteExpired/Range - every call returns with all locks free (a lock still held at the call-out shows up as the mutex/spin lock being taken twice). Every VxPar run of C02/C03/C05 additionally carries a deadlock obligation (unfinished threads all parked at disabled blocking operations in the final memory); C13's own tier runs it on a call that meets a whole-table grow in progress (waitForResize / wake-up; thorough: a shrink abandoned or completed while an insert is in flight). In sequential code a bucket spin lock found held by the same goroutine is a self-deadlock obligation.",
          "Bounds: 2 entries, callbacks nested twice. Livelock under an unfair scheduler is outside a bounded check.",
          "solver-based bounded symbolic execution of re-entrant callbacks; deadlock query over symbolic schedules"),
 }
 claimed.update({
  'C04': ("Context-bounded symbolic scheduling of the real MapOf[int,int] code (Load with SWAR meta lookup, doCompute, bucket mutexes) as C03, with an uninterpreted hasher: bucket-index and 7-bit h2 collisions of the keys in play are inside the quantifier.",
-         "Bounds: 2 goroutines, 1 op each (and 1 || 2), <=3 context switches, 1 root bucket with 2 symbolic slots and <=1 pre-state entry; resizes overlapping the calls are outside the quick instances.",
+         "Bounds: 2 goroutines, 1 op each (and 1 || 2), <=3 context switches, 1 root bucket with 2 symbolic slots and <=1 pre-state entry; plus resize||op: one whole-table grow 1->2 buckets (thorough: shrink 2->1) started directly with m.resize(table, hint) overlapping one call (quick: Clear, Store); a grow requested from inside a Store overlapping another call, and larger tables, are outside.",
          "solver-based context-bounded symbolic scheduling (go/ssa -> SMT, z3), linearizability oracle, native schedule replay"),
  'C08': ("Bounded symbolic execution: the striped counter sum == number of stored entries is part of the representation invariant every Map/MapOf step re-establishes (incl. the recount of a grow and the fresh table of Clear); cache Count == physically stored entries after every operation, == live entries after DeleteExpired, 0 after Clear; quiescent Size after two-goroutine runs with symbolic schedules (insert || delete of one key).",
-         "Bounds: as C11 shapes; concurrent part 2 goroutines, 1 op each, <=3 context switches, no resize during the calls.",
+         "Bounds: as C11 shapes; concurrent part 2 goroutines, 1 op each, <=3 context switches; a resize overlapping the calls only at the thorough tier (one whole-table grow 1->2 / shrink 2->1 buckets started directly, <=1 pre-state entry).",
          "solver-based bounded symbolic execution + symbolic schedules, counter invariant"),
  'C10': ("Two obligations. (a) Bounded symbolic execution of MapOf[K,int] steps for K in {struct{int8;int64} (padding), nested struct with string and array fields, bool, int8, *int incl. nil, string} under an uninterpreted hasher that respects == (any two distinct keys may collide in bucket, in h2 or completely): results equal the reference map's, i.e. two keys address the same entry iff Go == says so; pointer keys stay reachable after the pointee changes. (b) The real body of defaultHasher[K] is executed (reflect.TypeOf/Elem/Kind resolved on the static types, the reinterpretation of an interface variable as {typ, word} modelled with the gc ABI's layout) with runtime.typehash replaced by its contract - p must address a value of type t, equal values hash equally, a nil descriptor is a nil dereference - for K in {int, string, float64 (+0, -0, 1.5), padded struct, *int, any holding nil/int/string/*int/struct}: a short history (Store, Store, pointee change, Load, Size, Delete) must follow builtin-map semantics.",
          "Bounds: 1 root bucket, 2-3 symbolic slots (a); 3 keys and 6 calls (b). What runtime.typehash computes is trusted to meet its contract; NaN keys and key types outside the catalogue are outside.",
@@ -51,8 +51,8 @@ claimed.update({
  'C14': ("Symbolic data-race query: all heap accesses of two goroutines' go/ssa code are recorded with their scheduling group; the solver searches inputs and a schedule under which two conflicting accesses (same cell, one write, at least one plain) are adjacent; covers map operations incl. Size and overflow-bucket append vs the lock-free reader, safe publication of a freshly initialised pointee, and SetDefaultExpiration/SetEvictedCallback vs every reader of those settings. Counterexamples are confirmed by the Go race detector on a natively parallel run.",
          "Bounds: 2 goroutines, 1 call each, adjacency at the round boundaries of a 2-round schedule, 1-2 root buckets, no resize during the calls. Compiler/hardware reordering below the SC-for-atomics contract is trusted.",
          "solver-based symbolic data-race query, confirmed with go test -race"),
- 'C16': ("Bounded symbolic execution with a symbolic stall point: the writer (Store, Compute/LoadOrCompute parked inside the user function while holding the bucket lock, Delete, Clear) executes a free-length prefix of its visible operations and never resumes; the reader (Load, LoadOrStore hit path, Size) then runs alone: any disabled blocking operation, spin or unbounded loop of the reader is a violation, and its result must be the value before or after the writer's operation. Map and MapOf.",
-         "Bounds: 1 root bucket, <=2 pre-state entries, reader loops unwound 9 times; writers in the middle of a grow/shrink copy are outside; cache-level Get* are the same Load underneath plus a lock-free expiry test (not separately encoded).",
+ 'C16': ("Bounded symbolic execution with a symbolic stall point: the writer (Store, Compute/LoadOrCompute parked inside the user function while holding the bucket lock, Delete, Clear, or a whole-table grow stalled anywhere between its CAS on the resizing flag, the bucket copy and the publication of the new table) executes a free-length prefix of its visible operations and never resumes; the reader (Load, LoadOrStore hit path, Size) then runs alone: any disabled blocking operation, spin or unbounded loop of the reader is a violation, and its result must be the value before or after the writer's operation. Map and MapOf.",
+         "Bounds: 1 root bucket with a chain of 1 or 2 buckets, <=2 pre-state entries, reader loops unwound 9 times; a stalled grow 1->2 buckets is included, stalled shrinks and larger tables are outside; cache level: 4 writers x 4 readers on the real stack (Cache and CacheOf).",
          "solver-based bounded symbolic execution with symbolic stall point"),
 })
 claimed_other = {
